@@ -56,7 +56,7 @@ fn producers(thorough: bool) -> Vec<String> {
 }
 
 /// reference: content equality (IEEE for floats, element-wise for containers)
-fn content_eq(a: &Variable, b: &Variable) -> bool {
+pub(crate) fn content_eq(a: &Variable, b: &Variable) -> bool {
     match (a, b) {
         (Variable::Bool(x), Variable::Bool(y)) => x == y,
         (Variable::Int(x), Variable::Int(y)) => x == y,
@@ -192,6 +192,26 @@ pub fn run(tier: &str) -> i32 {
                 Ok(Variable::Function(f)) => forms.push(("run-time-typed", typed.clone(), call(&f, vec![a.clone(), b.clone()]))),
                 Ok(_) => {}
                 Err(e) => forms.push(("run-time-typed", typed.clone(), Err(e))),
+            }
+            // both operands spelled with the same name: still compared by content (a value
+            // holding a NaN differs from itself whatever its static type says)
+            if i == j {
+                let own = Ty::from_impl(&a.as_type()).print();
+                let body = "{ m := match a { (a) => 1, => 0, }; return (a == a, a != a, m) }";
+                for (form, text) in [
+                    ("same-name-any", format!("f := (a: any) -> any {body}")),
+                    ("same-name-typed", format!("f := (a: {own}) -> any {body}")),
+                    ("same-name-union", format!("f := (a: {own}|()) -> any {body}")),
+                    ("same-name-closure", format!("f := (a: {own}) -> any {{ g := () -> any {body}; return g() }}")),
+                ] {
+                    match eval(interp, &text) {
+                        Ok(Variable::Function(f)) => forms.push((form, text.clone(), call(&f, vec![a.clone()]))),
+                        Ok(_) => {}
+                        Err(e) => forms.push((form, text.clone(), Err(e))),
+                    }
+                }
+                let bound = format!("id := (q: any) -> any {{ return q }}; x := id({}); m := match x {{ (x) => 1, => 0, }}; (x == x, x != x, m)", ps[i]);
+                forms.push(("same-name-bound", bound.clone(), eval(interp, &bound)));
             }
             for (form, program, got) in forms {
                 acc.comparisons += 1;
